@@ -15,8 +15,11 @@ Open Scope N_scope.
     1.1, header lines [name ":" SP^k value CRLF] (any k, including 0) with token names that are
     unique up to case and values that are field values of RFC 9110 (visible bytes, obs-text, SP and
     HTAB inside, neither starting nor ending with SP/HTAB).  [expect] is the
-    specification: method, path, query, version, header list, authority (the target is judged by
-    the [http] crate's [Uri] parser, transcribed as [parse_uri]) and the first
+    specification: method, path, query, version, header list, authority (the Host value — header or
+    default host's name — becomes the authority of the URI if it is one ([authority_ok]); the URI,
+    i.e. scheme "://" host target, or the origin-form target alone without a usable Host value, is
+    judged by the [http] crate's [Uri] parser, transcribed as [parse_uri] / [parse_origin_form]:
+    [request_uri]) and the first
     [min content-length limit] bytes of whatever follows the blank line.  For every schedule that
     delivers the head and the body, every growth function, every end mode, every trailing bytes
     (the next request): the reader returns exactly that. *)
@@ -30,8 +33,8 @@ Proof. exact parse_print_lemma. Qed.
 
 (** The parser alone: the printed head followed by anything parses to the printed request, and
     the bytes after the blank line are exactly what followed (no byte lost or duplicated). *)
-Theorem parse_print_head : forall https dh (g : greq) extra host auth path query,
-  greq_ok g = true -> g_host dh g = Some host -> parse_uri https host (g_target g) = Some (auth, path, query) ->
+Theorem parse_print_head : forall https dh (g : greq) extra auth path query,
+  greq_ok g = true -> request_uri https (g_host dh g) (g_target g) = Some (auth, path, query) ->
   parse_request https dh (print_head g ++ extra) =
   Ok (mk_request (g_method g) path query (if g_v11 g then 11 else 10) (g_hmap g) auth extra).
 Proof. exact parse_request_print. Qed.
@@ -47,8 +50,8 @@ Theorem parse_print_lf : forall grow mode https dh (max_len : nat) limit (l0 : b
   exists sv, serve grow mode https dh max_len limit (print_head_e l0 fl lb g ++ rest) sched = Ok sv /\ observed sv = Some e.
 Proof. exact parse_print_lf_lemma. Qed.
 
-Theorem parse_print_head_lf : forall https dh (l0 : bool) (fl : list bool) (lb : bool) (g : greq) extra host auth path query,
-  greq_ok g = true -> g_host dh g = Some host -> parse_uri https host (g_target g) = Some (auth, path, query) ->
+Theorem parse_print_head_lf : forall https dh (l0 : bool) (fl : list bool) (lb : bool) (g : greq) extra auth path query,
+  greq_ok g = true -> request_uri https (g_host dh g) (g_target g) = Some (auth, path, query) ->
   parse_request https dh (print_head_e l0 fl lb g ++ extra) =
   Ok (mk_request (g_method g) path query (if g_v11 g then 11 else 10) (g_hmap g) auth extra).
 Proof. exact parse_request_print_e. Qed.
@@ -67,9 +70,9 @@ Theorem parse_print_ows : forall grow mode https dh (max_len : nat) limit (l0 : 
   exists sv, serve grow mode https dh max_len limit (print_head_d l0 ds lb g ++ rest) sched = Ok sv /\ observed sv = Some e.
 Proof. exact parse_print_ows_lemma. Qed.
 
-Theorem parse_print_head_ows : forall https dh (l0 : bool) (ds : list deco) (lb : bool) (g : greq) extra host auth path query,
+Theorem parse_print_head_ows : forall https dh (l0 : bool) (ds : list deco) (lb : bool) (g : greq) extra auth path query,
   greq_ok g = true -> decos_ok ds (g_headers g) = true ->
-  g_host dh g = Some host -> parse_uri https host (g_target g) = Some (auth, path, query) ->
+  request_uri https (g_host dh g) (g_target g) = Some (auth, path, query) ->
   parse_request https dh (print_head_d l0 ds lb g ++ extra) =
   Ok (mk_request (g_method g) path query (if g_v11 g then 11 else 10) (g_hmap g) auth extra).
 Proof. exact parse_request_print_d. Qed.
@@ -281,12 +284,23 @@ Example parse_print_ex :
   greq_ok ex_req = true /\ sched_pos [1; 30; 7; 100]%nat /\
   expect false None 65536 ex_req (B "helloGET /next") =
     Some (mk_expected (B "POST") (B "/p") (Some (B "x=1")) 11
-            [(B "host", B "ex.org"); (B "content-length", B "5"); (B "x-a", B "b c")] (B "ex.org") (B "hello")) /\
+            [(B "host", B "ex.org"); (B "content-length", B "5"); (B "x-a", B "b c")] (Some (B "ex.org")) (B "hello")) /\
   option_map observed
     (match serve vec_grow 0 false None (N.to_nat 16384) 65536 (print_head ex_req ++ B "helloGET /next") [1; 30; 7; 100]%nat
      with Ok sv => Some sv | _ => None end) =
   Some (expect false None 65536 ex_req (B "helloGET /next")).
 Proof. split; [vm_compute; reflexivity|]. split; [repeat constructor|]. split; vm_compute; reflexivity. Qed.
+
+(** a request without Host header and one whose Host value is no authority: the origin-form target is the URI *)
+Example no_host_ex :
+  expect false None 65536 (mk_greq (B "GET") (B "/p?x=1") false []) [] =
+    Some (mk_expected (B "GET") (B "/p") (Some (B "x=1")) 10 [] None []) /\
+  expect false (Some (B "dflt.test")) 65536 (mk_greq (B "GET") (B "/p") true [mk_hline (B "Host") 1 (B "a b")]) [] =
+    Some (mk_expected (B "GET") (B "/p") None 11 [(B "host", B "a b")] None []) /\
+  expect false (Some (B "dflt.test")) 65536 (mk_greq (B "GET") (B "/p") true [mk_hline (B "Host") 1 (B "a.org/dir")]) [] =
+    Some (mk_expected (B "GET") (B "/p") None 11 [(B "host", B "a.org/dir")] None []) /\
+  expect false None 65536 (mk_greq (B "GET") (B "p") true []) [] = None.
+Proof. vm_compute. repeat split; reflexivity. Qed.
 
 (** a malformed stream (bare LF line ends, a header line without colon) cut in two different ways *)
 Example segmentation_blind_ex :
@@ -339,7 +353,7 @@ Example parse_print_ows_ex :
   Some (expect false None 65536 ex_ows (B "helloGET /next")) /\
   expect false None 65536 ex_ows (B "helloGET /next") =
     Some (mk_expected (B "PURGE") (B "/p") None 11
-            [(B "host", B "ex.org"); (B "content-length", B "5"); (B "x-e", [])] (B "ex.org") (B "hello")).
+            [(B "host", B "ex.org"); (B "content-length", B "5"); (B "x-e", [])] (Some (B "ex.org")) (B "hello")).
 Proof. cbv zeta. repeat split; vm_compute; reflexivity. Qed.
 
 (** the body through [AsyncRead]: windows 2, 100, 100 over bursts 1, 1, 50 *)
